@@ -22,16 +22,14 @@ def solve_aquarium(height, width, blocks, clue_row, clue_col):
     for x in range(width):
         if clue_col[x] >= 0:
             solver.ensure(count_true(is_water[:, x]) == clue_col[x])
-    block_id = [[-1 for _ in range(width)] for _ in range(height)]
-    for i, block in enumerate(blocks):
-        for y, x in block:
-            block_id[y][x] = i
-    for y in range(height):
-        for x in range(width):
-            if x < width - 1 and block_id[y][x] == block_id[y][x + 1]:
-                solver.ensure(is_water[y, x] == is_water[y, x + 1])
-            if y < height - 1 and block_id[y][x] == block_id[y + 1][x]:
-                solver.ensure(is_water[y, x].then(is_water[y + 1, x]))
+    for block in blocks:
+        # one water level across the whole tank, not only between adjacent cells
+        for y1, x1 in block:
+            for y2, x2 in block:
+                if y1 == y2 and x1 < x2:
+                    solver.ensure(is_water[y1, x1] == is_water[y2, x2])
+                if y2 == y1 + 1:
+                    solver.ensure(is_water[y1, x1].then(is_water[y2, x2]))
     is_sat = solver.solve()
     return is_sat, is_water
 
